@@ -56,6 +56,11 @@ def run(chk):
                 r3.check(cf.evalc(ev.get('rhs') or {}) == want_arch, vt + ':used_arch', ev['loc'],
                          '%s records used_arch = %s, not IMB_ARCH_%s: imb_set_pointers_mb_mgr() would re-attach the manager with the handlers of '
                          'another architecture' % (f.name, cf.render(ev.get('rhs')) if ev.get('rhs') else '?', arch.upper()))
+        for b, i, ev in f.events(('assign',)):
+            l = cf.strip_casts(ev['lhs'])
+            if l.get('k') == 'mem' and l['f'] == 'used_arch_type':
+                r3.check(cf.evalc(ev.get('rhs') or {}) == n, vt + ':used_arch_type', ev['loc'],
+                         '%s records used_arch_type = %s in the type-%d variant' % (f.name, cf.render(ev.get('rhs')) if ev.get('rhs') else '?', n))
         own, tests = inits.masks_guarding(f, first)
         # failing edge of the own guard sets the error and returns
         for mk, d, killed in tests:
